@@ -361,6 +361,10 @@ class Pervaporation:
             )
 
         for step in range(len(time)):
+            if not feed_mass[step] > 0:
+                raise ValueError(
+                    "The feed is exhausted at step %s: reduce the step size or the membrane area" % step
+                )
             partial_fluxes.append(
                 self.calculate_partial_fluxes(
                     feed_temperature=conditions.initial_feed_temperature,
@@ -478,6 +482,14 @@ class Pervaporation:
         feed_mass: typing.List[float] = [conditions.initial_feed_amount]
 
         for step in range(len(time)):
+            if not feed_mass[step] > 0:
+                raise ValueError(
+                    "The feed is exhausted at step %s: reduce the step size or the membrane area" % step
+                )
+            if not 0 < feed_temperature[step] < numpy.inf:
+                raise ValueError(
+                    "The feed temperature is not a positive finite value at step %s: reduce the step size" % step
+                )
 
             evaporation_heat_1 = (
                 self.mixture.first_component.get_vaporisation_heat(
@@ -1070,6 +1082,10 @@ class Pervaporation:
             )
 
         for step in range(len(time)):
+            if not feed_mass[step] > 0:
+                raise ValueError(
+                    "The feed is exhausted at step %s: reduce the step size or the membrane area" % step
+                )
 
             partial_fluxes.append(
                 self.calculate_partial_fluxes(
@@ -1342,6 +1358,14 @@ class Pervaporation:
         )
 
         for step in range(len(time)):
+            if not feed_mass[step] > 0:
+                raise ValueError(
+                    "The feed is exhausted at step %s: reduce the step size or the membrane area" % step
+                )
+            if not 0 < feed_temperature[step] < numpy.inf:
+                raise ValueError(
+                    "The feed temperature is not a positive finite value at step %s: reduce the step size" % step
+                )
 
             evaporation_heat_1 = (
                 self.mixture.first_component.get_vaporisation_heat(
